@@ -207,7 +207,7 @@ def showParts : Option (List Range.Part) → String
   | some ps => ",".intercalate (ps.map fun p => toString p.min ++ ".." ++ toString p.max)
 
 def showNode (top : Bool) (path : String) (d : CData) : String :=
-  "|".intercalate [path, if top && d.kind == .action then "rpc" else d.kind.name, if d.noCfg then "-" else if d.config then "W" else "R", toString d.status, if d.mand then "M" else "-",
+  "|".intercalate [path, if top && d.kind == .action then "RPC" else d.kind.name, if d.noCfg then "-" else if d.config then "W" else "R", toString d.status, if d.mand then "M" else "-",
     if d.presence then "P" else "-", if d.dflts.isEmpty then "-" else ",".intercalate d.dflts, toString d.min, toString d.max,
     match d.typ with | none => "-" | some t => t.base ++ ":" ++ showParts t.parts,
     sOptStr d.units, toString d.whens]
